@@ -671,6 +671,19 @@ class Event:
                 "'Data Set' parameter"
             )
 
+        path = getattr(request, "_dataset_path", None)
+        if path is not None:
+            # STORE_RECV_CHUNKED_DATASET: the data set was written to file,
+            #   in the DICOM File Format, rather than kept in memory
+            with open(path, "rb") as f:
+                data = f.read()
+
+            if include_meta:
+                return data
+
+            # (0002,0000) File Meta Information Group Length, UL, 4 bytes
+            return data[144 + int.from_bytes(data[140:144], "little") :]
+
         if not include_meta:
             return stream
 
